@@ -763,7 +763,7 @@ def rule_prints(run, prog):
             run.ob("R-8.6", f"{fn.key}::print[{text(p.args[0], 24) if p.args else ''}]", pid not in reach,
                    "print reachable with debug == 0: normal-mode output is no longer only main's report (and -f json is "
                    "not JSON any more)", p)
-    run.require(n_prints >= 8, f"only {n_prints} print sites found outside __main__ (floor 8)")
+    run.require(n_prints >= 4, f"only {n_prints} print sites found outside __main__ (floor 4)")
 
 
 def check(run, prog):
